@@ -113,9 +113,19 @@ def run(A, R: Report, thorough: bool):
         else:
             it = rs(lp.iter, owner, sites)
             sources += [(it, h.id) for h in cfgt.nodes.values() if h.kind == 'for' and h.ast is lp]
-        stores = [n for n in ast.walk(lp) if isinstance(n, ast.Assign) and isinstance(n.targets[0], ast.Subscript) and rs(n.targets[0].value, owner, sites) == tparam and src(n.targets[0].slice) == idx
-                  and isinstance(n.value, ast.Call) and src(n.value.func) == fce and [src(a_) for a_ in n.value.args] == [val]]
-        recs = [n for n in ast.walk(lp) if isinstance(n, ast.Call) and src(n.func) == ftr.name and [src(a_) for a_ in n.args] == [val]]
+        # the loop body as written plus the helpers it calls as statements (their parameters resolved at the call site inside the loop)
+        inside = {id(x) for x in ast.walk(lp)}
+        body_triples = [(n, o2, s2) for n, o2, s2 in triples if (o2 is owner and s2 == sites and id(n) in inside) or
+                        (len(s2) > len(sites) and s2[:len(sites)] == sites and id(s2[len(sites)]) in inside)]
+        site_of = {id(o2.node): s2 for _, o2, s2 in body_triples}
+
+        def rcall(c_, o2):
+            """(callee name, argument texts in the loop's terms) of a call written in o2 (the traversal itself or an inlined helper)"""
+            return src(c_.func), [rs(a_, o2, site_of.get(id(o2.node), sites)) for a_ in c_.args]
+
+        stores = [n for n, o2, s2 in body_triples if isinstance(n, ast.Assign) and isinstance(n.targets[0], ast.Subscript) and rs(n.targets[0].value, o2, s2) == tparam
+                  and rs(n.targets[0].slice, o2, s2) == idx and isinstance(n.value, ast.Call) and rcall(n.value, o2) == (fce, [val])]
+        recs = [n for n, o2, s2 in body_triples if isinstance(n, ast.Call) and rcall(n, o2) == (ftr.name, [val])]
         if not stores or not recs:
             continue
         rec_always = loop_unconditional(cfgt, lp, recs[0]) and loop_runs_to_end(lp)
@@ -133,16 +143,29 @@ def run(A, R: Report, thorough: bool):
                 for h in heads:
                     gates = list(store_ids)
                     for n in cfgt.nodes.values():
-                        if n.kind == 'edge' and isinstance(n.ast, ast.Call):
-                            if src(n.ast.func) == ftr.name and [src(a_) for a_ in n.ast.args] == [val] and n.label == 'T':
+                        if n.kind != 'edge':
+                            continue
+                        o2 = getattr(getattr(n, 'owner', None), '_info', None) or ftr
+                        t_ = subst_single_assign(A, o2, n.ast) if isinstance(n.ast, ast.Name) else n.ast
+                        if isinstance(t_, ast.Call):
+                            if rcall(t_, o2) == (ftr.name, [val]) and n.label == 'T':
                                 gates.append(n.id)
-                            if src(n.ast.func) == fiv.name and [src(a_) for a_ in n.ast.args] == [val] and n.label == 'F':
+                            if rcall(t_, o2) == (fiv.name, [val]) and n.label == 'F':
                                 gates.append(n.id)
                     starts = cfgt.succ_by_label(h, 'loop')
                     skip = cfgt.find_path(starts, [h], avoid=gates, no_exc_from=allnodes)
                     ok_all = ok_all and skip is None
-                valid_guard = all(any(isinstance(a_, ast.Call) and src(a_.func) == fiv.name and pol for a_, pol in expanded_facts(A, ftr, cfgt, sid)) and
-                                  any(isinstance(a_, ast.Call) and src(a_.func) == ftr.name and not pol for a_, pol in expanded_facts(A, ftr, cfgt, sid)) for sid in store_ids)
+                def facts_res(sid):
+                    out = list(expanded_facts(A, ftr, cfgt, sid))
+                    for a_, pol, od in cfgt.facts_owned(sid):
+                        o2 = getattr(od, '_info', None)
+                        if o2 is not None and o2 is not ftr and isinstance(a_, ast.Name):
+                            e_ = subst_single_assign(A, o2, a_)
+                            if e_ is not a_ and isinstance(e_, ast.Call):
+                                out.append((e_, pol))
+                    return out
+                valid_guard = all(any(isinstance(a_, ast.Call) and src(a_.func) == fiv.name and pol for a_, pol in facts_res(sid)) and
+                                  any(isinstance(a_, ast.Call) and src(a_.func) == ftr.name and not pol for a_, pol in facts_res(sid)) for sid in store_ids)
                 if ok_all and rec_always and valid_guard:
                     found[kind] = True
     for kind in ('sequence', 'mapping'):
@@ -151,7 +174,10 @@ def run(A, R: Report, thorough: bool):
     # dispatch: `return True` only after a container test succeeded, `return False` only after both failed
     rets_t = [n for n in cfgt.nodes.values() if n.kind == 'stmt' and isinstance(n.ast, ast.Return) and isinstance(n.ast.value, ast.Constant) and n.ast.value.value is True]
     rets_f = [n for n in cfgt.nodes.values() if n.kind == 'stmt' and isinstance(n.ast, ast.Return) and isinstance(n.ast.value, ast.Constant) and n.ast.value.value is False]
-    other = [n for n in cfgt.nodes.values() if n.kind == 'stmt' and isinstance(n.ast, ast.Return) and n not in rets_t and n not in rets_f]
+    # a `return` of an inlined helper ends the helper, not the traversal
+    other = [n for n in cfgt.nodes.values() if n.kind == 'stmt' and isinstance(n.ast, ast.Return) and n not in rets_t and n not in rets_f and getattr(n, 'owner', ftr.node) is ftr.node]
+    rets_t = [n for n in rets_t if getattr(n, 'owner', ftr.node) is ftr.node]
+    rets_f = [n for n in rets_f if getattr(n, 'owner', ftr.node) is ftr.node]
     pos = {'sequence': [], 'mapping': []}
     neg = {'sequence': [], 'mapping': []}
     for n in cfgt.nodes.values():
@@ -246,6 +272,11 @@ def run(A, R: Report, thorough: bool):
                 R.violation('R11.3', construct, key_of('falsy-undefined', pretty(mt)[:100]),
                             'whether a placeholder is defined is decided by the truthiness of its value (`<lookup> or <placeholder>`): a name defined as 0, "", False or None is left unsubstituted',
                             witness=[pretty(mt)[:300]], where=where(frp))
+            elif not uses_test and any(x[0] == 'cond' and x[1][0] in ('method', 'call', 'index') and (('get' in str(x[1][:3])) or ('getattr' in str(x[1][:2]))) and name_t in dag_nodes(x[1]) and
+                                       any(v_ == x[3] or v_ == normalise(x[3]) for v_ in [normalise(v) for v in verbatim] + list(verbatim)) for x in dag_nodes(mt)):
+                R.violation('R11.3', construct, key_of('falsy-undefined', pretty(mt)[:100]),
+                            'whether a placeholder is defined is decided by the truthiness of the looked-up value (`value if value else <placeholder>`): a name defined as 0, "", False or None is left unsubstituted',
+                            witness=[pretty(mt)[:300]], where=where(frp))
             elif mode == 'object' and not uses_test and any(x[0] == 'cmp' and x[1] in ('In', 'NotIn') and x[2] == name_t for x in dag_nodes(mt)):
                 R.violation('R11.3', construct, key_of('object-lookup', pretty(mt)[:120]),
                             'for a global_vars object the placeholder name is looked up by membership instead of attribute access: names defined as class attributes, properties or inherited attributes count as undefined and stay unsubstituted',
@@ -288,12 +319,28 @@ def run(A, R: Report, thorough: bool):
     cfg = A.cfg(fpc)
     subs_nodes = [n.id for n in cfg.nodes.values() if n.kind == 'stmt' and n.ast is not None and any(isinstance(x, ast.Call) and src(x.func) == 'search_and_replace_placeholders' for x in ast.walk(n.ast))]
     loads = [n for n in A.typer.own_nodes(fpc) if isinstance(n, ast.Call) and src(n.func) in ('Context.prepare_context', 'prepare_context') and any(isinstance(p, ast.For) and 'uses' in src(p.iter) for p in _parents(n))]
+    # the load of one `uses` item may sit in a private helper of Context: the call of that helper inside the loop is the load, and
+    # every recursive prepare_context call inside the helper must forward the variables
+    helper_loads = []
+    if not loads:
+        for n_ in A.typer.own_nodes(fpc):
+            if isinstance(n_, ast.Call) and isinstance(n_.func, ast.Attribute) and n_.func.attr in ctxc.methods and n_.func.attr != 'prepare_context' and src(n_.func.value) in ('Context', 'cls', 'self') \
+                    and any(isinstance(p_, ast.For) and 'uses' in src(p_.iter) for p_ in _parents(n_)):
+                h_ = ctxc.methods[n_.func.attr]
+                inner = [c_ for c_ in A.typer.own_nodes(h_) if isinstance(c_, ast.Call) and src(c_.func) in ('Context.prepare_context', 'prepare_context', 'cls.prepare_context')]
+                if inner:
+                    loads.append(n_)
+                    helper_loads += [(h_, c_) for c_ in inner]
     R.require(subs_nodes and loads, 'anchor: placeholder substitution / nested context loading not found in Context.prepare_context')
     load_nodes = [cn.id for c in loads for cn in cfg_nodes_for(cfg, c)]
     gv_edges = [n.id for n in cfg.nodes.values() if n.kind == 'edge' and src(n.ast) in ('global_vars is not None',) and n.label == 'F'] + \
                [n.id for n in cfg.nodes.values() if n.kind == 'edge' and src(n.ast) in ('global_vars is None', 'not global_vars') and n.label == 'T']
     p = cfg.find_path([cfg.entry.id], load_nodes, avoid=subs_nodes + gv_edges)
     R.check(p is None, 'R11.5', 'Context.prepare_context: uses', key_of('uses-order'), 'uses substituted before being loaded', 'context `uses` paths are loaded before placeholders in them are substituted', witness=cfg.describe_path(p) if p else None, where=where(fpc))
+    for h_, c in helper_loads:
+        fwd = any(kw.arg == 'global_vars' and src(kw.value) == 'global_vars' for kw in c.keywords) or (len(c.args) >= 3 and src(c.args[2]) == 'global_vars')
+        R.check(fwd, 'R11.5', f'{h_.short}: `{src(c)[:50]}`', key_of('forward-global-vars', src(c)), 'variables forwarded to nested contexts',
+                'a context loaded through `uses` does not receive global_vars: placeholders in its own `uses` are never substituted', where=where(h_, c))
     for c in loads:
         fwd = any(kw.arg == 'global_vars' and src(kw.value) == 'global_vars' for kw in c.keywords) or (len(c.args) >= 3 and src(c.args[2]) == 'global_vars')
         R.check(fwd, 'R11.5', f'Context.prepare_context: `{src(c)[:50]}`', key_of('forward-global-vars', src(c)), 'variables forwarded to nested contexts',
